@@ -13,11 +13,11 @@ ID = 'C16'
 RULE = ('corpus / curated molecules x synthetic templates with explicit atom maps covering each patcher branch (identity, '
         'any-atom reuse, element / charge / radical / bond-order change, new atoms, deleted atoms with and without ring-preserved '
         'paths, masked atoms, stereo keep / override incl. labels on ring-closing atoms of the replacement, neutralisation of matched charged '
-        'atoms, delete_atoms off), every template on 39 substrates written for them, the built-in deprotection rules on their documented '
+        'atoms, delete_atoms off), every template on 54 substrates written for them (15 where the edit makes a labelled centre outside the template non-stereogenic), the built-in deprotection rules on their documented '
         'examples and on scaffolds, and built-in / synthetic multi-reactant templates with colliding numbers in one-shot and '
         'exhaustive mode, atom-creating templates run with spectator molecules in three layouts; monitor: boundary recorder on BaseReactor._patcher (mapping used, deleted set); oracle: frame '
         'conditions on (input, mapping, product), own BFS for the detached-fragment closure, product count = distinct matches, '
-        'identity template = input, valence validity, requested configuration (the replacement read as pattern matches the product on '
+        'identity template = input, valence validity, product labels unchanged by re-validation, requested configuration (the replacement read as pattern matches the product on '
         'its own atoms), unique atom numbers, spectators unchanged, reaction composable, invariance of the product set under renumbering and reactant order; '
         'non-trivial = application with >= 1 match that changes the molecule, distinct by (template, input)')
 ASSUMPTIONS = ['CachedMethods compatibility shim', 'synthetic templates carry explicit maps on every atom (unmapped pattern and '
@@ -27,12 +27,12 @@ CONFIG = {
     'quick': {'shards': 16, 'budget_s': 150, 'n_mols': 1200,
               'floors': {'evaluations': 6000, 'distinct_nontrivial': 900, 'applications.with-match': 1500, 'products.checked': 3000,
                          'recorder.patcher-calls': 3000, 'branch.deleted-fragment': 150, 'branch.masked': 15, 'branch.new-atom': 300,
-                         'branch.identity': 200, 'documented.deprotections': 25, 'reactor.reactions': 60, 'numbering.compared': 500, 'reactor.with-spectators': 150, 'reactor.composed': 150, 'branch.stereo-requested': 40}},
+                         'branch.identity': 200, 'documented.deprotections': 25, 'reactor.reactions': 60, 'numbering.compared': 500, 'reactor.with-spectators': 150, 'reactor.composed': 150, 'branch.stereo-requested': 40, 'products.labels-revalidated': 2500}},
     'thorough': {'shards': 16, 'budget_s': 1800, 'n_mols': 4200, 'all_templates': True,
                  'floors': {'evaluations': 25000, 'distinct_nontrivial': 3000, 'applications.with-match': 6000,
                             'products.checked': 15000, 'recorder.patcher-calls': 15000, 'branch.deleted-fragment': 500,
                             'branch.masked': 100, 'branch.new-atom': 3000, 'branch.identity': 2000, 'documented.deprotections': 25,
-                            'reactor.reactions': 200, 'numbering.compared': 3000, 'reactor.with-spectators': 150, 'reactor.composed': 150}},
+                            'reactor.reactions': 200, 'numbering.compared': 3000, 'reactor.with-spectators': 150, 'reactor.composed': 150, 'products.labels-revalidated': 12000}},
 }
 
 # (name, pattern, replacement, kwargs, tags)
@@ -76,7 +76,10 @@ TEMPLATES = [
 TARGETED = ['C1OC1C', 'CC1OC1C', 'C[C@H]1O[C@@H]1C', 'C1OC1c1ccccc1', 'CC1(C)OC1C', 'C1OC1CC=C', 'CC(O)CCl', 'OC(C)CBr', 'C[C@H](O)CCl', 'OC(CBr)c1ccccc1',
             'C1NC1C', 'CC1NC1CC', 'CN1CC1C', 'CC(=O)[O-]', '[O-]C(=O)c1ccccc1', '[O-]C(=O)CCC([O-])=O', 'C[N+](C)(C)[O-]', '[O-][n+]1ccccc1', 'C[NH3+]', 'CC[NH+](C)C',
             '[NH3+]CC([O-])=O', 'CC[O-]', 'C[O-].[Na+]', '[CH2-]C', 'C[CH-]C', 'CC(O)N', 'C[C@H](O)N', 'C[C@@H](O)N', 'CCC(O)NC', 'CC(O)(N)CC', 'C[C@](O)(N)CC',
-            'NC(O)C1CC1', 'OC(N)c1ccccc1', 'CC(Cl)C(C)O', 'ClCC(O)C1CCCCC1', 'CC(O)C(C)=O', 'C[C@H](O)C(=O)O', 'OCC1OC1', 'C1OC1C1CO1']
+            'NC(O)C1CC1', 'OC(N)c1ccccc1', 'CC(Cl)C(C)O', 'ClCC(O)C1CCCCC1', 'CC(O)C(C)=O', 'C[C@H](O)C(=O)O', 'OCC1OC1', 'C1OC1C1CO1',
+            # the edit makes a labelled centre outside the template non-stereogenic (two arms become equal)
+            'OC[C@H](C)CBr', 'OC[C@@H](C)CBr', 'C[C@H](CO)CCl', 'OC[C@H](F)CI', 'FC[C@H](C)CO', 'COC[C@H](C)CO', 'CC(=O)OC[C@@H](C)CO', 'C/C=C(/CO)CBr',
+            'C/C=C(\\CO)CCl', 'CC=[C@]=C(CO)CBr', 'OC[C@H]1C[C@@H](CBr)C1', 'N#CC[C@H](C)CC(N)=O', 'C[C@H](CC=O)CC=S', 'OC[C@](C)(F)CBr', '[O-]C(=O)[C@H](C)C(O)=O']
 
 
 # ---- boundary recorder -------------------------------------------------------------------------------------------------------
@@ -252,6 +255,20 @@ def frame_check(ctx, name, pattern, replacement, kwargs, rec, src, tags):
             if n < k and frozenset((mo[n], mo[k])) not in rep_pairs and mo[k] in new._bonds[mo[n]]:
                 ctx.violation('bond-between-named-atoms-kept', '%s on %s: %d-%d' % (name, src, mo[n], mo[k]), w)
                 return
+    # product validity: every label of the product sits on a centre that is still stereogenic (re-validation changes nothing)
+    try:
+        q = new.copy()
+        q.flush_cache()
+        q.fix_stereo()
+        lab = lambda x: ({n: a.stereo for n, a in x.atoms() if a.stereo is not None}, {frozenset((n, k)): b.stereo for n, k, b in x.bonds() if b.stereo is not None})
+        ctx.count('products.labels-revalidated')
+        if lab(q) != lab(new):
+            ctx.violation('product-keeps-label-on-non-stereogenic-centre', '%s on %s -> %s: re-validation of the product changes its labels %s -> %s'
+                          % (name, src, new, lab(new), lab(q)), w)
+            return
+    except Exception as e:
+        ctx.violation('product-stereo-tables-raise/%s' % type(e).__name__, '%s on %s: %r' % (name, src, e), w)
+        return
     if not s.check_valence() and new.check_valence() and 'valence-free' not in tags:
         ctx.violation('product-valence-invalid', '%s on %s -> %s atoms %s' % (name, src, new, new.check_valence()), w)
 
